@@ -74,6 +74,7 @@ struct Stats {
     scratch_borrows: u64,
     scratch_nested_same_arena: u64,
     shrinks: u64,
+    deallocs: u64,
     obj_ops: u64,
     decommitted: Vec<usize>,
     commit_moved_on_failure: u64,
@@ -418,6 +419,52 @@ fn run_history(case: &Value, w: &mut World) -> V {
                     }
                 }
             }
+            "dealloc" | "obj_drop" => {
+                // giving a block back is allowed at any time and must change nothing: arena memory is
+                // only reclaimed by a reset ("... since the last reset below it"), and the interpreter keeps
+                // zero-copy views into storage whose owner was dropped
+                let (u, what) = if kind == "dealloc" {
+                    let u = usable[sel(g(1), usable.len())];
+                    let h = w.handle(u).unwrap();
+                    let floor = w.floor(u);
+                    let before = w.us[u].off;
+                    let cands: Vec<usize> = (0..w.us[u].live.len()).filter(|k| w.us[u].live[*k].off >= floor).collect();
+                    if cands.is_empty() {
+                        continue;
+                    }
+                    // half of the time the most recent block, if there is one
+                    let tail = cands.iter().copied().find(|k| w.us[u].live[*k].off + w.us[u].live[*k].len == before && w.us[u].live[*k].len > 0);
+                    let i = match tail {
+                        Some(t) if g(2) % 2 == 0 => t,
+                        _ => cands[sel(g(2), cands.len())],
+                    };
+                    let b = w.us[u].live.remove(i);
+                    let base = w.us[u].base;
+                    unsafe { h.deallocate(NonNull::new_unchecked((base + b.off) as *mut u8), Layout::from_size_align(b.len, b.align).unwrap()) };
+                    w.stats.deallocs += 1;
+                    (u, format!("deallocate of the block at offset {} ({} bytes)", b.off, b.len))
+                } else {
+                    let alive: Vec<usize> = w.objs.iter().enumerate().filter(|(_, o)| !matches!(o, Obj::Dead)).map(|(k, _)| k).collect();
+                    if alive.is_empty() {
+                        continue;
+                    }
+                    let k = alive[sel(g(1), alive.len())];
+                    let (u, ob) = match &w.objs[k] {
+                        Obj::Vec { u, b, .. } | Obj::Str { u, b, .. } => (*u, *b),
+                        Obj::Dead => continue,
+                    };
+                    if w.handle(u).is_none() || w.newest_borrow(u) != ob {
+                        continue;
+                    }
+                    w.objs[k] = Obj::Dead; // drops the vector / string
+                    w.stats.deallocs += 1;
+                    (u, "drop of a vector/string".to_string())
+                };
+                let now = w.handle(u).unwrap().offset();
+                if now != w.us[u].off {
+                    return bad("offset-model", format!("step {step}: {what} moved the bump pointer from {} to {now}", w.us[u].off));
+                }
+            }
             "shrink" => {
                 // only the most recent block may be shrunk (caller contract)
                 let u = usable[sel(g(1), usable.len())];
@@ -588,6 +635,9 @@ fn run_history(case: &Value, w: &mut World) -> V {
                     }
                     Obj::Dead => {}
                 }
+                if h.offset() < w.us[u].off {
+                    return bad("offset-model", format!("step {step}: {kind} moved the bump pointer back from {} to {}", w.us[u].off, h.offset()));
+                }
                 w.us[u].off = h.offset();
                 w.stats.obj_ops += 1;
             }
@@ -698,8 +748,10 @@ impl Engine for C11 {
                 json!(["mark", a])
             } else if c < 80 {
                 json!(["reset", a, r.below(16), u64::from(r.chance(33))])
-            } else if c < 84 {
+            } else if c < 83 {
                 json!(["decommit", a])
+            } else if c < 84 {
+                if r.chance(70) { json!(["dealloc", a, r.below(16)]) } else { json!(["obj_drop", r.below(8)]) }
             } else if c < 92 && with_objs {
                 match r.below(7) {
                     0 => json!(["vec_new", a, r.below(3000)]),
@@ -854,6 +906,7 @@ impl Engine for C11 {
         res.count("grows_in_place", s.grows_in_place);
         res.count("grows_moved_non_tail", s.grows_moved);
         res.count("shrinks", s.shrinks);
+        res.count("deallocations_and_object_drops", s.deallocs);
         res.count("resets", s.resets);
         res.count("decommits_that_released_pages", s.decommits_effective);
         res.count("probe_allocation_recommitted_after_decommit", s.recommits_after_decommit);
